@@ -436,9 +436,11 @@ class LambdaExpression(Expression):
         self.expression = expression
 
     def __str__(self) -> str:
+        # BooleanExpression knows where grouping parentheses are needed.
+        expression = BooleanExpression(self.expression.token, self.expression)
         if len(self.params) == 1:
-            return f"{self.params[0]} => {self.expression}"
-        return f"({', '.join(self.params)}) => {self.expression}"
+            return f"{self.params[0]} => {expression}"
+        return f"({', '.join(self.params)}) => {expression}"
 
     def __hash__(self) -> int:
         return hash((tuple(self.params), hash(self.expression)))
